@@ -171,6 +171,8 @@ pub fn judge_linear(prop: &str, isa: Isa, acc: &mut Acc, c: &LinCase, cfg: &EmuC
     acc.add("statement_boundaries_checked", r.stats.heap_walks);
     acc.add("blocks_walked", r.stats.blocks_walked);
     acc.add("external_calls_checked", r.stats.ext_calls);
+    acc.add("print_contexts_compared", r.stats.print_contexts_compared);
+    acc.add("print_context_variables_compared", r.stats.print_context_variables_compared);
     acc.add("spill_accesses", r.stats.spill_accesses);
     acc.add("shared_blocks_observed", r.stats.shared_blocks_seen);
     acc.add("deferred_blocks_observed", r.stats.deferred_seen);
